@@ -131,6 +131,12 @@ func runC11(c *Ctx) {
 		ch.Bytes(ctx, "ctx")
 	}
 	length := []int{0, 1, 16, 32, 33, 255, 1000}[ch.Pick(7, "ekm-len")]
+	var ekmBefore []int
+	if ch.Bool(33, "ekm-calls-before") {
+		for k := ch.Range(1, 3, "ekm-before-n"); k > 0; k-- {
+			ekmBefore = append(ekmBefore, []int{length + 1, 2*length + 32, 64, 1000, 1, length}[ch.Pick(6, "ekm-before-len")])
+		}
+	}
 	removeSNI := ch.Bool(10, "remove-sni")
 	// server-name shapes: the name reported by both sides must be the SNI actually sent
 	snShape := []string{"example.test", "example.test", "example.test", "example.test.", "192.0.2.9", "[2001:db8::9]", "www.example.test"}[ch.Pick(7, "sn-shape")]
@@ -190,7 +196,15 @@ func runC11(c *Ctx) {
 		nconn = 2
 	}
 	noEMSFirst := history && ch.Bool(25, "no-ems-first")
-	c.R.Class = fmt.Sprintf("%s/%s %s hist=%v rmsni=%v sn=%s late=%v cauth=%d noreneg=%v srvech=%v noemsfirst=%v ekm=%q/%d/%d", f.Kind, f.IDI.Name, plan, history, removeSNI, snShape, lateSNI, clientAuth, noReneg, srvECH, noEMSFirst, label, len(ctx), length)
+	// histories in which each connection keeps only one of the TLS 1.3 suites it offers (a documented
+	// edit of Hello.CipherSuites after the build): the second connection resumes a session made under
+	// another suite of the same hash, and both sides must still report the suite in use
+	suiteEdit := history && !noEMSFirst && f.IDI.ID != tls.HelloGolang && ch.Bool(35, "suite-edit")
+	keepSuites := [2]uint16{}
+	for i := range keepSuites {
+		keepSuites[i] = []uint16{tls.TLS_AES_128_GCM_SHA256, tls.TLS_CHACHA20_POLY1305_SHA256}[ch.Pick(2, "keep-suite")]
+	}
+	c.R.Class = fmt.Sprintf("%s/%s %s hist=%v rmsni=%v sn=%s late=%v cauth=%d noreneg=%v srvech=%v noemsfirst=%v ekm=%q/%d/%d before=%v suiteedit=%v", f.Kind, f.IDI.Name, plan, history, removeSNI, snShape, lateSNI, clientAuth, noReneg, srvECH, noEMSFirst, label, len(ctx), length, ekmBefore, suiteEdit)
 	// a history may start with another fingerprint (Roller style): a hand-written TLS 1.2 hello
 	// without extended_master_secret; the second hello then offers that session's ticket, which a
 	// server has to decline in favour of a full handshake (RFC 7627 5.3) - both sides must agree
@@ -209,9 +223,26 @@ func runC11(c *Ctx) {
 					return err
 				}
 			}
-			if lateSNI || noReneg {
+			if lateSNI || noReneg || suiteEdit {
 				if err := u.BuildHandshakeState(); err != nil {
 					return err
+				}
+			}
+			if suiteEdit {
+				cs, keep := u.HandshakeState.Hello.CipherSuites, keepSuites[i]
+				has := false
+				for _, x := range cs {
+					has = has || x == keep
+				}
+				if has {
+					var ns []uint16
+					for _, x := range cs {
+						if x>>8 != 0x13 || x == keep {
+							ns = append(ns, x)
+						}
+					}
+					u.HandshakeState.Hello.CipherSuites = ns
+					c.Probe("suite-edit")
 				}
 			}
 			if noReneg {
@@ -228,6 +259,11 @@ func runC11(c *Ctx) {
 		}
 		sp.After = func(u *tls.UConn) {
 			st := u.ConnectionState()
+			// the exporter is a function of (label, context, length) alone: a third of the worlds ask the
+			// client for other lengths of the same label and context first (the server is asked once)
+			for _, l := range ekmBefore {
+				st.ExportKeyingMaterial(label, ctx, l)
+			}
 			cEKM, cEKMErr = st.ExportKeyingMaterial(label, ctx, length)
 		}
 		o := RunConn(c, w, sp)
